@@ -64,7 +64,7 @@ package util
 //@ spec nResults(m *types.Func) int = tupleLen(sigResults(sigOf(m)))
 //@ spec nParams(m *types.Func) int = tupleLen(sigParams(sigOf(m)))
 //@ spec resultType(m *types.Func, i int) types.Type = typeOfObj(tupleAt(sigResults(sigOf(m)), i))
-//@ spec compliesGetter(m *types.Func) bool = nParams(m) == 0 && nResults(m) == 1 && !isErrorT(resultType(m, 0))
+//@ spec compliesGetter(m *types.Func) bool = is(typeOfObj(m), *types.Signature) && as(typeOfObj(m), *types.Signature) != nil && nParams(m) == 0 && nResults(m) == 1 && !isErrorT(resultType(m, 0))
 //@
 //@ func CompliesGetter(m) (r)
 //@   use T3(m)
